@@ -7,6 +7,7 @@
   every one-character corruption) and `unmarshal` / `build` with generator-known truth about the declared values.
 -/
 import Gowarc.Lemmas.StreamLemmas
+import Gowarc.Lemmas.MonadLemmas
 namespace Gowarc.Props.C03
 open Gowarc
 
@@ -76,34 +77,42 @@ theorem wrong_digest_rejected_b16 (alg : Alg) (name : Bytes) (data other : Bytes
 theorem checkDigest_adds (o : Opts) (field : Bytes) (tag : Tag) (d : Digest) (data : Bytes) (st : St)
     (hempty : d.hash = []) (hadd : o.addMissingDigest = true) :
     checkDigest H o field tag d data st = (.ok (), { st with hdr := st.hdr.set field (d.format H data) }) := by
-  simp [checkDigest, hempty, hadd, bind, M.hdr, M.setHdr]
+  simp [checkDigest, hempty, hadd]
 
-/-- checkDigest: a correct declared value is never reported, under any policy and any repair setting -/
+/-- checkDigest: a correct declared value is never reported and never rewritten, under any policy and any repair setting -/
 theorem checkDigest_complete (o : Opts) (field : Bytes) (tag : Tag) (d : Digest) (data : Bytes) (st : St)
     (hne : d.hash ≠ []) (hok : d.valid H data = true) :
     checkDigest H o field tag d data st = (.ok (), st) := by
   have : d.hash.isEmpty = false := by cases h : d.hash <;> simp_all
-  unfold checkDigest
-  simp only [bind, M.hdr, this, Bool.false_eq_true, ↓reduceIte, hok, Bool.not_true]
-  cases o.spec <;> simp [pure]
+  simp [checkDigest, this, hok]
 
-/-- checkDigest: a wrong declared value is ALWAYS reported when spec checking is on: a finding under warn … -/
+/-- checkDigest: a wrong declared value is ALWAYS reported when spec checking is on: a finding under warn, and with the
+    repair option the header afterwards carries the true digest … -/
 theorem checkDigest_sound_warn (o : Opts) (field : Bytes) (tag : Tag) (d : Digest) (data : Bytes) (st : St)
     (hne : d.hash ≠ []) (hbad : d.valid H data = false) (hw : o.spec = .warn) :
-    ∃ st', checkDigest H o field tag d data st = (.ok (), st') ∧ st'.fnd = st.fnd ++ [tag] ∧
-      (o.fixDigest = true → st'.hdr = st.hdr.set field (d.format H data)) ∧ (o.fixDigest = false → st'.hdr = st.hdr) := by
+    checkDigest H o field tag d data st =
+      (.ok (), ⟨if o.fixDigest then st.hdr.set field (d.format H data) else st.hdr, st.fnd ++ [tag]⟩) := by
   have : d.hash.isEmpty = false := by cases h : d.hash <;> simp_all
-  unfold checkDigest
-  cases hf : o.fixDigest <;>
-    simp [bind, M.hdr, this, hbad, hw, site, M.finding, M.setHdr, pure, hf]
+  have hne' : (Pol.warn != Pol.ignore) = true := by decide
+  cases hf : o.fixDigest <;> simp [checkDigest, this, hbad, hw, hf, hne']
 
 /-- … and the error under fail -/
 theorem checkDigest_sound_fail (o : Opts) (field : Bytes) (tag : Tag) (d : Digest) (data : Bytes) (st : St)
     (hne : d.hash ≠ []) (hbad : d.valid H data = false) (hf : o.spec = .fail) :
     checkDigest H o field tag d data st = (.error tag, st) := by
   have : d.hash.isEmpty = false := by cases h : d.hash <;> simp_all
-  unfold checkDigest
-  simp [bind, M.hdr, this, hbad, hf, site, M.fail]
+  have hne' : (Pol.fail != Pol.ignore) = true := by decide
+  simp [checkDigest, this, hbad, hf, hne']
+
+/-- the length check: a Content-Length that differs from the number of block bytes is always reported when spec checking
+    is on, a correct one never -/
+theorem lengthBad_iff (o : Opts) (h : Fields) (b : Block) (hs : o.spec ≠ .ignore) (hcl : h.has (bs "Content-Length") = true) :
+    lengthBad o h b = true ↔ h.get (bs "Content-Length") ≠ natToDec b.raw.length := by
+  unfold lengthBad
+  have : (o.spec != Pol.ignore) = true := by cases hsp : o.spec <;> simp_all
+  rw [this, hcl]
+  simp only [Bool.and_self, Bool.true_and, bne_iff_ne, ne_eq]
+  exact ⟨fun h e => h e.symm, fun h e => h e.symm⟩
 
 end
 
